@@ -44,7 +44,7 @@ func c07(r *core.Run) {
 	r.Assumptions = []string{T1, T4}
 	r.NotDecided = []string{"the history-level equality usage = Σ live footprints (needs induction over histories)", "re-posting the same (merkle, owner, start) key within one block charges twice"}
 	r.Rule("C07/R1", "removal returns the footprint: each function deleting a FilesByMerkle record writes StoragePaymentInfo of the file's owner with SpaceUsed := SpaceUsed − f(FileSize, MaxProofs) behind Expires==0, on every path that deletes")
-	r.Rule("C07/R2", "charge is guarded: the plan write of storage.MsgPostFile is on committing paths only behind Found(plan)=true, Before(End, now)=false and Cmp(SpaceUsed' <= SpaceAvailable); the pay-once branch (msg.Expires>0) never writes the plan")
+	r.Rule("C07/R2", "charge is guarded: the plan write of storage.MsgPostFile is on committing paths only behind Found(plan)=true, Before(End, now)=false and the space comparison in its wrap-free form Cmp(footprint <= SpaceAvailable - SpaceUsed); the pay-once branch (msg.Expires>0) never writes the plan")
 	r.Rule("C07/R3", "footprint operands validated: MsgPostFile.ValidateBasic rejects FileSize and MaxProofs below 1 (and an overflowing product); the wasm entry calls ValidateBasic (C11/R4)")
 	r.Rule("C07/R4", "plan change keeps usage: in storage.MsgBuyStorage the new record's SpaceUsed ⊵ the loaded record's SpaceUsed only; when a plan is found committing paths pass Cmp(SpaceUsed <= msg.Bytes)")
 	r.Rule("C07/R5", "the charge happens: every committing path of the plan-paid branch writes the signer's plan record with SpaceUsed ⊵ {loaded SpaceUsed, msg.FileSize, msg.MaxProofs}")
@@ -159,9 +159,22 @@ func c07(r *core.Run) {
 		guardRow(r, "C07/R2", h, "plan-not-expired", filter, func(*ssa.Function) core.GuardMatch {
 			return extBool(p, "time.Time).Before", false, func(pr core.Prov) bool { return pr.HasStore(stPay, ".End") }, ctxIs("BlockTime"))
 		}, "Before(plan.End, now)=false")
-		guardRow(r, "C07/R2", h, "within-purchased-space", filter, func(*ssa.Function) core.GuardMatch {
-			return cmpGuard(p, func(pr core.Prov) bool { return pr.HasStore(stPay, ".SpaceUsed") && p.HasMsgField(pr, h, "FileSize") }, onlyStoreField(stPay, ".SpaceAvailable"), "<=", "<")
-		}, "Cmp(SpaceUsed' <= SpaceAvailable)")
+		// the comparison bounds the message's footprint by the remaining space (footprint <= available - used):
+		// the other way round (used + footprint <= available) the sum wraps around for a huge footprint
+		noStore := func(pr core.Prov) bool {
+			return p.HasMsgField(pr, h, "FileSize") && !pr.Any(func(a core.Atom) bool { return a.Kind == "store" })
+		}
+		remaining := func(pr core.Prov) bool {
+			return pr.HasStore(stPay, ".SpaceAvailable") && pr.HasStore(stPay, ".SpaceUsed") && len(p.MsgFields(pr, h)) == 0
+		}
+		if guardRow(r, "C07/R2", h, "within-purchased-space", filter, func(*ssa.Function) core.GuardMatch {
+			return anyOf(cmpGuard(p, noStore, remaining, "<=", "<"),
+				cmpGuard(p, func(pr core.Prov) bool { return pr.HasStore(stPay, ".SpaceUsed") && p.HasMsgField(pr, h, "FileSize") }, onlyStoreField(stPay, ".SpaceAvailable"), "<=", "<"))
+		}, "Cmp(SpaceUsed' <= SpaceAvailable)") {
+			guardRow(r, "C07/R2", h, "space-comparison-cannot-wrap", filter, func(*ssa.Function) core.GuardMatch {
+				return cmpGuard(p, noStore, remaining, "<=", "<")
+			}, "Cmp(footprint <= SpaceAvailable - SpaceUsed)")
+		}
 		guardRow(r, "C07/R2", h, "not-on-pay-once-branch", filter, func(*ssa.Function) core.GuardMatch {
 			return cmpGuard(p, msgField(p, h, "Expires"), func(pr core.Prov) bool { return len(pr.DataAtoms()) == 0 }, "<=", "<")
 		}, "Cmp(msg.Expires > 0)=false")
@@ -212,6 +225,10 @@ func c07(r *core.Run) {
 			r.Check(ok, "C07/R3", "postfile:unvalidated:"+f, p.Pos(vb.Pos()), "ValidateBasic rejects "+f+" < 1", "MsgPostFile.ValidateBasic accepts zero or negative "+f+": a negative footprint lowers the plan's usage below the files held (and feeds BeginBlock arithmetic)")
 		}
 	}
+	if vb != nil {
+		r.Check(productOverflowGuarded(p, vb, "FileSize", "MaxProofs"), "C07/R3", "postfile:product-overflow-checked", p.Pos(vb.Pos()), "ValidateBasic rejects FileSize > MaxInt64/MaxProofs", "MsgPostFile.ValidateBasic does not reject an overflowing FileSize*MaxProofs by the division form (a sign test of the wrapped product misses products that wrap past 2^64): the plan is charged the wrapped footprint")
+	}
+	wasmDoorValidated(r, "C07/R3", hs, "storage.MsgPostFile")
 	// ---- R4 BuyStorage
 	if h := core.HandlerByKey(hs, "storage.MsgBuyStorage"); h == nil {
 		r.Undecided("C07/R4", "storage.MsgBuyStorage:anchor-missing", "", "handler missing")
